@@ -75,7 +75,7 @@ def cache_effects(o, must_clear):
          - entries may only disappear (every surviving entry existed before, memo_val is untouched),
          - every vertex x with must_clear(x) has an empty memo afterwards.
        Over-invalidation therefore never breaks a contract; a missing invalidation does."""
-    def c_has(new, old):
+    def c_has(new, old, *_):
         return [Schema("memo-only-shrinks-and-cleared", MEMO_KEY,
                        lambda v, d, u, f: Implies(new(v, d, u, f), And(old(v, d, u, f), Not(must_clear(v)))),
                        trigger=("memo_has",))]
@@ -85,7 +85,7 @@ def cache_effects(o, must_clear):
 
 
 def stats_monotone(o):
-    def c_stats(new, old):
+    def c_stats(new, old, *_):
         return [Schema("stats-monotone", (Int,), lambda u: Implies(old(u), new(u)), trigger=("stats_has",))]
     o.loose("stats_has", c_stats)
     return o
